@@ -113,11 +113,12 @@ const (
 	buildAppendMoved
 	buildRemovedInFront
 	buildReattached
+	buildSectionMergedElsewhere
 	numC14Builds
 )
 
 func (b c14Build) String() string {
-	return [...]string{"built directly", "merged from two halves", "faulty list element moved by a prepend merge", "faulty list element moved down by a Remove in front of it", "object holding the fault taken with Child and put back with SetChild (no MetaData option)"}[b]
+	return [...]string{"built directly", "merged from two halves", "faulty list element moved by a prepend merge", "faulty list element moved down by a Remove in front of it", "object holding the fault taken with Child and put back with SetChild (no MetaData option)", "the section holding the fault was merged (as a live *Config) into two other configs before"}[b]
 }
 
 func c14Config(loc string, f *c14Fault, selfPath string) (M, string) {
@@ -299,6 +300,20 @@ func c14Space() *core.Space {
 						ch, err = cfg.Child(name, idx, opts...)
 						if err == nil {
 							err = cfg.SetChild(name, idx, ch, ucfg.PathSep("."))
+						}
+					}
+				case buildSectionMergedElsewhere:
+					cfg, src, err = c14LoadCfg(data, load, opts)
+					if err == nil && loc != "" {
+						top := strings.SplitN(loc, ".", 2)[0]
+						if sec, cerr := cfg.Child(top, -1, opts...); cerr == nil {
+							// merging a section somewhere else must not change what it says about itself
+							other := ucfg.New()
+							other.Merge(sec, opts...)
+							nested := mustCfg(M{"queue": M{"mem": M{}}})
+							if q, qerr := nested.Child("queue.mem", -1, ucfg.PathSep(".")); qerr == nil {
+								q.Merge(sec, opts...)
+							}
 						}
 					}
 				case buildPrependMoved, buildAppendMoved:
